@@ -161,6 +161,9 @@ def source_fn(src):
     """function body for Run/Schedule style sources"""
     vt, r = src["vt"], src["fret"]
     rtype, body = ret_code(r, vt)
+    if src.get("hsig"):
+        # a head functor taking Result<void, E>: it also runs (with StopError) when the head job is dropped
+        return "[cap0 = pg::Cap(0)](pg::RV r) -> %s { pg::Enter(0, pg::D(r)); %s }" % (rtype, body)
     return "[cap0 = pg::Cap(0)]() -> %s { pg::Enter(0, {-1, 0}); %s }" % (rtype, body)
 
 
@@ -399,13 +402,17 @@ def interpret(p, mode="base", k=-1):
         elif etag is not None:
             accepted = submit(etag)
         if accepted:
-            ex.log.append((0, etag, -1, 0))
+            ex.log.append((0, etag, 0, 0) if src.get("hsig") else (0, etag, -1, 0))
             if kind in ("async_contract", "lazy_contract", "lazy_contract_e"):
                 state = (src["st"], src["code"] if (src["st"] != ST_VAL or vt == "T") else 0)
                 if src.get("connect"):
                     ex.steps += 1  # the contract the functor connects its promise to
             else:
                 state = run_fret(src["fret"], vt)
+        elif src.get("hsig"):
+            # dropped head whose functor takes a Result: it is called with StopError, wherever the drop happens
+            ex.log.append((0, None, ST_ERR, -1))
+            state = run_fret(src["fret"], vt)
         else:
             state = STOP
     elif kind == "make_task":
@@ -688,6 +695,8 @@ def gen_source(rng, lazy, coro):
     if k in ("run_e", "run", "schedule_e", "schedule", "shared_on"):
         src["fret"] = gen_ret(rng, 0, src["vt"], coro, allow_async=False)
         src["fret"]["code"] = code
+        if rng.random() < 0.3:
+            src["hsig"] = "Rv"
     return src
 
 
@@ -796,6 +805,8 @@ def generate(seed, n_random, coro, max_len=4, exhaustive_l1=True):
                                     src["etag"] = 1
                                 if sk in ("run_e", "run", "schedule_e", "schedule", "shared_on"):
                                     src["fret"] = {"kind": "res", "st": in_state, "code": 7}
+                                    if (q // 11) % 3 == 0:
+                                        src["hsig"] = "Rv"
                                 p.source = src
                                 if attach == "inherit" and inherited_after(src, [], lazy, "tofuture") is None:
                                     continue
@@ -842,6 +853,8 @@ def generate(seed, n_random, coro, max_len=4, exhaustive_l1=True):
                                     src["connect"] = "pending" if q % 3 == 1 else "ready"
                                 if sk in ("schedule_e", "schedule"):
                                     src["fret"] = {"kind": "res", "st": in_state, "code": 7}
+                                    if (q // 11) % 3 == 0:
+                                        src["hsig"] = "Rv"
                                 p.source = src
                                 p.start = start
                                 inh = inherited_after(src, [], True, start)
